@@ -600,6 +600,7 @@ package parser
 
 //@ func (p *Parser) parseFormatStringOperator
 //@   include ParseFrame
+//@   loopinv [C18:font-token] 1 <= fontIdToken.LineNumber && fontIdToken.LineNumber <= fontIdToken.EndLineNumber
 //@   ensures [C20:stack-balanced] result3 == nil ==> (SameStack(p.breakStack, old(p.breakStack)) && SameStack(p.continueStack, old(p.continueStack)))
 //@   loopinv [C20:stack-balanced-inv] SameStack(p.breakStack, old(p.breakStack)) && SameStack(p.continueStack, old(p.continueStack))
 //@ end
